@@ -56,6 +56,13 @@ def random_graph(rng, nt: int, nn: int, dens: float, with_direct: bool):
             for b in tasks:
                 if rank[a] < rank[b] and rng.random() < dens / 3:
                     edges.append([a, b])
+    # node → node edges occur in real DAGs (a PythonNode product of one task wrapped by the dependency node of another task:
+    # task → node → wrapper node → task); the scheduler must look through chains of nodes
+    if nn >= 2 and rng.random() < 0.5:
+        for a in nodes:
+            for b in nodes:
+                if rank[a] < rank[b] and rng.random() < dens / 2:
+                    edges.append([a, b])
     return allv, tasks, edges, rank
 
 
